@@ -113,3 +113,29 @@ def rng(seed, salt=""):
 def write_summary(outdir, summary):
     with open(os.path.join(outdir, "driver_summary.json"), "w") as f:
         json.dump(summary, f)
+
+
+class HangTimeout(Exception):
+    """a library call did not return within the watchdog limit"""
+
+
+class time_limit:
+    """watchdog for library calls that may not terminate (SIGALRM based, main thread only)"""
+
+    def __init__(self, seconds):
+        self.seconds = seconds
+
+    def _fire(self, signum, frame):
+        raise HangTimeout(f"no return within {self.seconds}s")
+
+    def __enter__(self):
+        import signal
+        self._old = signal.signal(signal.SIGALRM, self._fire)
+        signal.setitimer(signal.ITIMER_REAL, self.seconds)
+        return self
+
+    def __exit__(self, *a):
+        import signal
+        signal.setitimer(signal.ITIMER_REAL, 0)
+        signal.signal(signal.SIGALRM, self._old)
+        return False
